@@ -841,6 +841,7 @@ func (s *backendSuite) do(t []string) string {
 			if err != nil || !resp.Succeeded {
 				return fmt.Sprintf("bulk failed-at %d", i)
 			}
+			s.noteHdr(resp.Header) // (`settle` waits until the committed revision has reached every header seen)
 			last = resp.Header.Revision
 		}
 		return fmt.Sprintf("bulk %d", last)
